@@ -59,7 +59,6 @@ type channel struct {
 	streamBroken    atomicFlag
 	connEstablished atomicFlag
 	parentCtx       context.Context
-	reconnected     chan struct{} // signals that the stream has been re-created
 	streamCtx       context.Context
 	cancelStream    context.CancelFunc
 	responseRouters map[uint64]responseRouter
@@ -80,7 +79,6 @@ func newChannel(n *RawNode) *channel {
 		latency:         -1 * time.Second,
 		rand:            rand.New(rand.NewSource(time.Now().UnixNano())),
 		responseRouters: make(map[uint64]responseRouter),
-		reconnected:     make(chan struct{}, 1),
 	}
 	// parentCtx controls the channel and is used to shut it down
 	c.parentCtx = n.newContext()
@@ -104,18 +102,19 @@ func (c *channel) newNodeStream(conn *grpc.ClientConn) error {
 	c.gorumsClient = ordering.NewGorumsClient(conn)
 	c.gorumsStream, err = c.gorumsClient.NodeStream(c.streamCtx)
 	stream := c.gorumsStream
+	if err != nil {
+		// release the context of the stream that could not be created
+		c.cancelStream()
+	}
 	c.streamMut.Unlock()
 	if err != nil {
 		return err
 	}
 	c.streamBroken.clear()
-	// guard against creating multiple receiver goroutines
-	if !c.connEstablished.get() {
-		// connEstablished indicates dial was successful
-		// and that receiver have started
-		c.connEstablished.set()
-		go c.receiver(stream)
-	}
+	// connEstablished indicates dial was successful
+	c.connEstablished.set()
+	// every stream gets its own receiver goroutine
+	go c.receiver(stream)
 	return nil
 }
 
@@ -287,19 +286,21 @@ func (c *channel) sender() {
 	}
 }
 
+// receiver reads the replies of one stream until that stream fails. Every stream has its
+// own receiver, started by whoever creates the stream, so that the failure of every stream
+// is observed and the calls pending on it are completed with an error - also when the
+// sender has replaced the stream in the meantime.
 func (c *channel) receiver(stream ordering.Gorums_NodeStreamClient) {
 	for {
 		resp := newMessage(responseType)
 		// Do not hold the stream lock while blocked in RecvMsg: a sender that needs
 		// the write lock to re-create the stream would otherwise wait for a reply that
 		// cannot arrive, because it is the one who must send the request.
-		// The receiver keeps reading a stream until it fails, also after the sender has
-		// replaced it, so that the failure of every stream is observed and the calls
-		// pending on it are completed with an error.
 		err := stream.RecvMsg(resp)
 		if err != nil {
 			c.streamMut.RLock()
-			if stream == c.gorumsStream {
+			current := stream == c.gorumsStream
+			if current {
 				// the current stream failed; it has not been replaced by the sender meanwhile.
 				c.streamBroken.set()
 			}
@@ -309,17 +310,16 @@ func (c *channel) receiver(stream ordering.Gorums_NodeStreamClient) {
 			// was sent and we are waiting for a reply. We thus need to respond
 			// with a stream is down error on all pending messages.
 			c.cancelPendingMsgs()
-			// attempt to reconnect indefinitely until the node is closed.
-			// This is necessary when streaming is enabled.
-			c.reconnect(-1)
-			// continue with the current stream, whoever created it.
-			c.streamMut.RLock()
-			stream = c.gorumsStream
-			c.streamMut.RUnlock()
-		} else {
-			err := status.FromProto(resp.Metadata.GetStatus()).Err()
-			c.routeResponse(resp.Metadata.MessageID, response{nid: c.node.ID(), msg: resp.Message, err: err})
+			if current {
+				// attempt to reconnect indefinitely until the node is closed.
+				// This is necessary when streaming is enabled.
+				c.reconnect(-1)
+			}
+			// the stream that replaced this one has its own receiver
+			return
 		}
+		err = status.FromProto(resp.Metadata.GetStatus()).Err()
+		c.routeResponse(resp.Metadata.MessageID, response{nid: c.node.ID(), msg: resp.Message, err: err})
 
 		select {
 		case <-c.parentCtx.Done():
@@ -369,20 +369,19 @@ func (c *channel) reconnect(maxRetries float64) {
 			c.streamMut.Unlock()
 			return
 		}
+		// release the context of the broken stream
+		c.cancelStream()
 		c.streamCtx, c.cancelStream = context.WithCancel(c.parentCtx)
-		// keep the old (broken) stream if no new one can be created: the receiver
-		// may still call RecvMsg on c.gorumsStream, which must never be nil.
+		// keep the old (broken) stream if no new one can be created:
+		// c.gorumsStream must never be nil.
 		var stream ordering.Gorums_NodeStreamClient
 		stream, err = c.gorumsClient.NodeStream(c.streamCtx)
 		if err == nil {
 			c.gorumsStream = stream
 			c.streamBroken.clear()
 			c.streamMut.Unlock()
-			// wake up a goroutine that is waiting out a backoff delay below
-			select {
-			case c.reconnected <- struct{}{}:
-			default:
-			}
+			// every stream gets its own receiver goroutine
+			go c.receiver(stream)
 			return
 		}
 		c.cancelStream()
@@ -404,8 +403,6 @@ func (c *channel) reconnect(maxRetries float64) {
 		select {
 		case <-time.After(time.Duration(delay)):
 			retries++
-		case <-c.reconnected:
-			// somebody else re-created the stream; the check at the top of the loop returns.
 		case <-c.parentCtx.Done():
 			return
 		}
